@@ -37,6 +37,7 @@ def run(tier):
         if H.header_index(prog, rep) < 4:      # "never reads or writes outside its own buffers": the parsed-header array
             rep.defer_broken("W9-index: fewer than 4 subscripts of the parsed-header array found")
         H.chunk_framing(prog, rep)     # "never aborts": a consume of more than the line and its CRLF trips the reader's assertion
+        H.terminator_found(prog, rep)  # "never aborts": the parser is run only on a block whose blank line was seen
         H.header_count(prog, rep)      # "never aborts": lines are counted by the tokenizer that extracts them
         if H.announced_sizes(prog, rep) < 3:   # "ends with exactly one invocation of the callback": whatever length the server announces
             rep.defer_broken("W12: fewer than 3 allocations found in http.c")
